@@ -19,6 +19,7 @@ CONSTANTS
   UntypedDedup = FALSE
   DeriveFrom <- DeriveM1
   DeriveForget = TRUE
+  PartialFlush = FALSE
   SnapFirst = FALSE
 VIEW View
 INVARIANTS TypeOK AllReadable BroughtBack NoDangling
